@@ -55,6 +55,13 @@ func (c *Ctx) pathSignature(t *Trace, pkgPath string, stopAt func(e *Event) bool
 		if _, _, isInt := typeRange(v.Typ, "amd64"); isInt && v.Kind != KConst {
 			return norm(lf(v).String())
 		}
+		if v.Kind == KBin || (v.Kind == KUn && v.Op == token.NOT) {
+			// a comparison used as a value (return b.off >= len(b.buf)): same normal form as a guard
+			switch v.Op {
+			case token.EQL, token.NEQ, token.LSS, token.LEQ, token.GTR, token.GEQ, token.NOT:
+				return norm(canonGuard(v, true))
+			}
+		}
 		return norm(v.Key())
 	}
 	var parts, guards []string
